@@ -102,7 +102,12 @@ def kinds():
         # a linker created with no `submodels` argument at all (submodels may be attached to it later)
         return Lk0()
 
-    return {'linker-empty': empty_linker, 'container': container, 'model': model(Simple), 'aliased': model(Aliased), 'traced': model(Traced), 'mixins': model(Both),
+    def model_dtype(span, shared=None):
+        # a model instantiated with a non-default dtype for its variables
+        k = len(list(span)) % 3
+        return Simple(span, dtype=[np.float32, int, 'float32'][k], c=1, G=10 if shared is None else shared)
+
+    return {'model-dtype': model_dtype, 'linker-empty': empty_linker, 'container': container, 'model': model(Simple), 'aliased': model(Aliased), 'traced': model(Traced), 'mixins': model(Both),
             'linker': linker, 'linker-traced-submodel': nested}
 
 
